@@ -31,7 +31,7 @@ theorem C08_delivery (s : State) (op : Op) (c k : String) (f : RowFn) (h : op.sh
     (hx : s.coll? c = some x) :
     (∀ r' e o, f (hlcNow s.hlc s.phys) s.now (s.row? c k) = .inr (r', some e, o) →
       (step s op).1.feeds = s.feeds.map (fun fd =>
-        if fd.coll = c ∧ ¬ fd.dump then { fd with pending := fd.pending ++ [.ev e x.id fd.keysOnly] } else fd)) ∧
+        if fd.coll = c ∧ ¬ fd.dump ∧ ¬ fd.stopped then { fd with pending := fd.pending ++ [.ev e x.id fd.keysOnly] } else fd)) ∧
     ((∀ r' e o, f (hlcNow s.hlc s.phys) s.now (s.row? c k) ≠ .inr (r', some e, o)) → (step s op).1.feeds = s.feeds) := by
   have hrow : s.row? c k = x.docs.get? k := by rw [State.row?_def, hx]; rfl
   -- feeds of `step` are those of the transaction (arming the timer for a touch does not touch them)
